@@ -325,7 +325,7 @@ PROPS = {
                 claim="Retention invariants checked after every API call over seeded runs with small limits; steady-state heap flatness over long streaming connections measured with the allocation seam.",
                 note="Private parser fields (in_buf_size, out_buf_size, in_header, out_header, transaction list) are read through the private headers.",
                 technique="deterministic simulation with fault injection; retention invariants after every call, allocation-seam accounting for steady state",
-                design_ref="DESIGN.md section 7 C10", rule="chaos plans biased to small field limits and max_tx; invariants after every call: retained line bytes <= hard limit, pending folded header below cap, transaction list <= max_tx+1; every 8th run a limit exerciser (traffic shaped to hit each cap, incl. a buffered continuation after an over-limit pending header); every 16th run a steady-state connection of 300-10000 periodic transactions with auto-destroy, logging off, disposal and slot recycling after every call, delivered in groups or (a third) with a sliding window in which neither direction is ever idle: live heap must not grow with the transaction index (group mode: no sample above the warm-up maximum + 4 KiB; sliding mode: late median <= early median + 4 KiB) and the transaction list stays short."),
+                design_ref="DESIGN.md section 7 C10", rule="chaos plans biased to small field limits and max_tx; invariants after every call: retained line bytes <= hard limit (buffer + pending header while a line is being buffered), pending folded header below cap, header fields per message <= the configured number limit, transaction list <= max_tx+1; every 8th run a limit exerciser (traffic shaped to hit each cap, incl. a buffered continuation after an over-limit pending header); every 16th run a steady-state connection of 300-10000 periodic transactions with auto-destroy, logging off, disposal and slot recycling after every call, delivered in groups or (a third) with a sliding window in which neither direction is ever idle: live heap must not grow with the transaction index (group mode: no sample above the warm-up maximum + 4 KiB; sliding mode: late median <= early median + 4 KiB) and the transaction list stays short."),
 }
 
 ASSUMPTIONS = [
